@@ -18,5 +18,9 @@ MCSpec == MCInit /\ [][MCNext]_vars
 View == <<prog, phase, now, tickn, pending, ready, more, cur, fs, store, todo, entered, crashed, sweeps>>
 \* every run terminates (checked without state constraint: the tick bound is in the next-state relation)
 Terminates == <>(phase = "end")
-FairSpec == MCSpec /\ WF_vars(MCNext)
+\* fairness: the machine itself keeps stepping, and between ticks the clock eventually ticks or the
+\* interrupt arrives (the environment may not write inputs forever instead)
+FairSpec == /\ MCSpec
+            /\ WF_vars(StartRun \/ Dispatch \/ EndTick \/ Sweep \/ EndRun \/ MachineStep)
+            /\ WF_vars((tickn < MaxTicks /\ NextTick) \/ Interrupt)
 =============================================================================
